@@ -57,12 +57,14 @@ func init() {
 		it.pc = append(it.pc, it.ts.Ule(t, it.ts.Const(8, 1)))
 		return it.ts.Eq(t, it.ts.Const(8, 1)), stOK
 	})
-	// vLen(tag, lo, hi): bounded integer, immediately case-split (structure is enumerated)
+	// vLen(tag, lo, hi): bounded integer, case-split by the executor (structure is enumerated, no solver)
 	reg("harness.vLen", func(it *Interp, g *G, fr *Frame, args []Value, site ssa.Instruction) (Value, stepResult) {
 		lo, hi := constArg(it, args[1]), constArg(it, args[2])
-		t := it.freshInput(strArg(it, args[0]), "len", 64)
-		it.pc = append(it.pc, it.ts.And(it.ts.Ule(it.ts.Const(64, uint64(lo)), t), it.ts.Ule(t, it.ts.Const(64, uint64(hi)))))
-		v := it.concretizeN(t, "vLen "+strArg(it, args[0]), int(hi-lo)+2)
+		if hi < lo {
+			it.abort(PathPruned, "empty vLen range")
+		}
+		v := uint64(lo) + uint64(it.choose(int(hi-lo)+1, "vLen "+strArg(it, args[0])))
+		it.inputs = append(it.inputs, &InputVar{Tag: strArg(it, args[0]), Kind: "len", W: 64, Conc: true, Value: v})
 		return it.ts.Const(64, v), stOK
 	})
 	// vInt(tag, lo, hi): bounded integer that stays symbolic
@@ -74,9 +76,11 @@ func init() {
 	})
 	reg("harness.vChoice", func(it *Interp, g *G, fr *Frame, args []Value, site ssa.Instruction) (Value, stepResult) {
 		n := constArg(it, args[1])
-		t := it.freshInput(strArg(it, args[0]), "choice", 64)
-		it.pc = append(it.pc, it.ts.Ult(t, it.ts.Const(64, uint64(n))))
-		v := it.concretizeN(t, "vChoice "+strArg(it, args[0]), int(n)+1)
+		if n <= 0 {
+			it.abort(PathPruned, "empty vChoice range")
+		}
+		v := uint64(it.choose(int(n), "vChoice "+strArg(it, args[0])))
+		it.inputs = append(it.inputs, &InputVar{Tag: strArg(it, args[0]), Kind: "choice", W: 64, Conc: true, Value: v})
 		return it.ts.Const(64, v), stOK
 	})
 	reg("harness.vBytes", func(it *Interp, g *G, fr *Frame, args []Value, site ssa.Instruction) (Value, stepResult) {
